@@ -39,7 +39,12 @@ def build(t):
         for fname, ft in t["fields"]:
             ns[fname] = build(ft)
             if t.get("field_decl") and ft["k"] in ("ref", "union", "struct", "array"):
-                ns[fname] = xo.Field(ns[fname])        # the explicit form of a field declaration
+                dflt = (t.get("ref_defaults") or {}).get(fname)
+                if dflt is not None and ft["k"] == "ref":
+                    # a reference field with a declared (non-null) default: an explicit None still means "nothing"
+                    ns[fname] = xo.Field(ns[fname], default=to_input(ft["target"], dflt, "py"))
+                else:
+                    ns[fname] = xo.Field(ns[fname])        # the explicit form of a field declaration
         r = type(t["name"], (xo.Struct,), ns)
     elif kk == "array":
         item = build(t["item"])
